@@ -183,6 +183,10 @@ var floatPool = []uint64{
 	0, 0x8000000000000000, 0x3ff0000000000000, 0xbff0000000000000, 0x7ff0000000000000, 0xfff0000000000000, 0x7ff8000000000000,
 	0x0000000000000001, 0x000fffffffffffff, 0x0010000000000000, 0x7fefffffffffffff, 0x3fb999999999999a, 0x400921fb54442d18,
 	0x47efffffe0000000, 0x36a0000000000000, 0x3810000000000000, 0x4059000000000000, 0x3fe0000000000000,
+	// around the edges of the float32 range: 2^128, 2*MaxFloat32, -1.25*2^128, MaxFloat32 plus one float64 ulp, 2^127,
+	// half the smallest float32 subnormal, the largest float32 subnormal, the smallest float32 normal less one ulp
+	0x47f0000000000000, 0x47ffffffe0000000, 0xc7f4000000000000, 0x47efffffe0000001, 0x47e0000000000000,
+	0x3690000000000000, 0x380fffffc0000000, 0x380fffffffffffff,
 }
 
 // Float returns float bits, class-biased.
